@@ -603,6 +603,65 @@ def translate_layout(src_root):
             emit(f"theorem alphaAl_block (nt N nta : Nat) : {alo} = 1 ∧ {ahi} = 1 + N ∧ cAlLo nt N nta = 1 + N ∧ tafAlLo nt N nta = 1 + N + nt ∧ "
                  "nparAl nt N nta = 1 + N + nt + nt * nta := by\n  refine ⟨?_, ?_, ?_, ?_, ?_⟩\n  all_goals try simp only [cAlLo, tafAlLo, nparAl]\n  all_goals try ring")
             emit("theorem tafAl_slot (nt N nta t a : Nat) : tafAlAt nt N nta t a = 1 + N + nt + a * nt + t := " + _close("tafAlAt, tafAlLo"))
+    # ------------------------------------------------------------------------------------------------ Monte Carlo unpacking
+    acc = ast.parse((Path(src_root) / "dtscalibration" / "dts_accessor.py").read_text())
+    mcd = None
+    for node in ast.walk(acc):
+        if isinstance(node, ast.FunctionDef) and node.name == "monte_carlo_double_ended":
+            mcd = node
+    if mcd is None:
+        raise Untranslatable("monte_carlo_double_ended not found")
+    B = Block(mcd)
+    msym = _Sym({"nt": "nt", "no": "N", "nx_sec": "N", "nta": "nta", "mc_sample_size": "M"})
+    tas = [(i, v) for i, (k, v) in enumerate(B.all) if k == "ta"]
+    if len(tas) != 2:
+        raise Untranslatable(f"monte_carlo_double_ended unpacks the splice block {len(tas)}x (expected: with and without parameter uncertainty)")
+    for n_, (i, node) in enumerate(tas):
+        if not (isinstance(node, ast.Call) and isinstance(node.func, ast.Attribute) and node.func.attr == "reshape"
+                and isinstance(node.args[0], ast.Tuple)):
+            raise Untranslatable(f"splice block unpacking is not a reshape: {ast.unparse(node)[:80]}")
+        order = "C"
+        for kw in node.keywords:
+            if kw.arg == "order":
+                order = kw.value.value
+        dims = [msym.expr(d) for d in node.args[0].elts]
+        base = node.func.value
+        lead = 0
+        if not isinstance(base, ast.Subscript):
+            raise Untranslatable("splice block is not a slice of the parameter vector")
+        sl = base.slice
+        if isinstance(sl, ast.Tuple):      # po_mc[:, lo:]  -> leading sample axis kept
+            if len(sl.elts) != 2 or ast.unparse(sl.elts[0]) != ":" or dims[0] != "M" or order != "F":
+                raise Untranslatable(f"sampled splice block: unexpected slicing {ast.unparse(base)[:80]}")
+            lead, sl = 1, sl.elts[1]
+        if not (isinstance(sl, ast.Slice) and sl.upper is None and sl.step is None and sl.lower is not None):
+            raise Untranslatable(f"splice block does not run to the end of the vector: {ast.unparse(base)[:80]}")
+        lo = msym.expr(sl.lower)
+        d3 = dims[lead:]
+        if sorted(d3) != ["2", "nt", "nta"]:
+            raise Untranslatable(f"splice block reshaped to {dims}")
+        for name, dval in (("ta_fw", 0), ("ta_bw", 1)):
+            cand = [v for k, v in B.all[i:] if k == name]
+            if not cand:
+                raise Untranslatable(f"{name} not found after the reshape")
+            ix = cand[0]
+            if not (isinstance(ix, ast.Subscript) and _key(ix.value) == "ta" and isinstance(ix.slice, ast.Tuple)
+                    and len(ix.slice.elts) == len(dims)):
+                raise Untranslatable(f"{name} is not an index into ta: {ast.unparse(ix)[:60]}")
+            idx = []
+            for ax, (e, dname) in enumerate(zip(ix.slice.elts[lead:], d3)):
+                if ast.unparse(e) == ":":
+                    idx.append({"nt": "t", "nta": "a"}.get(dname))
+                    if idx[-1] is None:
+                        raise Untranslatable(f"{name}: the direction axis is not selected")
+                elif isinstance(e, ast.Constant) and e.value == dval and dname == "2":
+                    idx.append(str(dval))
+                else:
+                    raise Untranslatable(f"{name}: unexpected index {ast.unparse(e)} on axis of size {dname}")
+            emit(f"def mc{n_}_{name} (nt N nta t a : Nat) : Nat := {lo} + {_pos(d3, idx, order)}")
+            emit(f"theorem mc{n_}_{name}_slot (nt N nta : Nat) (a : Fin nta) (t : Fin nt) :\n"
+                 f"    mc{n_}_{name} nt N nta t a = indexD nt N nta (Sum.inr (Sum.inr (Sum.inr (Sum.inr (a, ({dval} : Fin 2), t))))) := "
+                 + _close(f"mc{n_}_{name}, indexD"))
     emit("\nend DtsVerif.GenLayout")
     return "\n".join(L) + "\n"
 
